@@ -102,6 +102,11 @@ func (p *Processor) handleCleanup(ctx context.Context) {
 			} else {
 				gs = p.gs
 			}
+			if gs == nil {
+				// An entry created by an injection before the first guardian set arrived:
+				// there is no set to count misses against yet.
+				break
+			}
 
 			hasSigs := len(s.signatures)
 			wantSigs := CalculateQuorum(len(gs.Keys))
